@@ -220,8 +220,36 @@ def run_identities(case):
   return R(None, True, name)
 
 
+# ------------------------------------------------------------ calling routes
+from ..routes import routes_agree
+
+
+def route_table():
+  T = OrderedDict()
+  c = lambda v: (lambda: v)
+  for sd, sdn in ((window, "window"), (wsymm, "wsymm")):
+    for name in all_names():
+      spec = [("size", c(9))]
+      if canonical(name) in ("blackman", "cos"):
+        spec.append(("alpha", c(0.3 if canonical(name) == "blackman" else 2.5)))
+      T["%s.%s" % (sdn, name)] = (sd[name], spec, lambda w: [repr(v) for v in w])
+  return T
+
+
+def gen_routes(run):
+  for name in route_table():
+    yield (name,)
+
+
+def run_routes(case):
+  f, spec, canon = route_table()[case[0]]
+  return routes_agree(case[0], f, spec, canon)
+
+
 KINDS = OrderedDict([
   ("window", Kind(gen_window, run_window, chunk=16, rule="(name or alias, size) x alpha grid; non-trivial: size >= 3")),
   ("sums", Kind(gen_sums, run_sums, chunk=50, rule="(window, size, overlap factor)")),
   ("identities", Kind(gen_identities, run_identities, chunk=4, rule="alias table and cross references")),
+  ("call-routes", Kind(gen_routes, run_routes, chunk=1,
+                       rule="each function with every documented parameter set: all positional / all keyword / every split must agree")),
 ])
